@@ -442,7 +442,9 @@ def main():
             k += 1
     # beams: constant axial strain and curvature on inclined members (exact Pythagorean directions)
     if tier == "quick":
-        for et, tim, dim_, dd in (("SEG2", False, 2, (3.0, 4.0, 0.0)), ("SEG3", True, 2, (3.0, 4.0, 0.0)), ("SEG2", False, 3, (2.0, 3.0, 6.0)), ("SEG3", True, 3, (2.0, 3.0, 6.0))):
+        for et, tim, dim_, dd in (("SEG2", False, 2, (3.0, 4.0, 0.0)), ("SEG3", True, 2, (3.0, 4.0, 0.0)), ("SEG2", False, 3, (2.0, 3.0, 6.0)), ("SEG3", True, 3, (2.0, 3.0, 6.0)),
+                                  # members drawn towards -x (the local frame of a plane beam is right-handed whatever its direction)
+                                  ("SEG3", False, 2, (-5.0, 12.0, 0.0)), ("SEG2", True, 2, (-4.0, -3.0, 0.0))):
             configs.append({"sim": "beam", "dim": dim_, "elem": et, "timoshenko": tim, "direction": dd})
     else:
         for et in ["SEG2", "SEG3", "SEG4", "SEG5"]:
